@@ -513,6 +513,25 @@ package expr
 // "Example values are computed while building OpenAPI docs and may panic": the length drawn for a generated
 // string, array or map example is never negative, no remainder is taken modulo zero, and no collection is made
 // with a negative length.
+// (the two randomizers of the package are proved to return non-negative lengths and integers; a randomizer
+// supplied from outside is ASSUMED to)
+//@ iface goa.design/goa/v3/expr.Randomizer.ArrayLength
+//@   params r
+//@   ensures result >= 0
+//@   modifies nothing
+//@ iface goa.design/goa/v3/expr.Randomizer.Int
+//@   params r
+//@   ensures result >= 0
+//@   modifies nothing
+//@ func (*FakerRandomizer).ArrayLength
+//@   params r
+//@   callspec Int params
+//@       ensures result >= 0
+//@   ensures result >= 0
+//@ func DeterministicRandomizer.ArrayLength
+//@   ensures result >= 0
+//@ func DeterministicRandomizer.Int
+//@   ensures result >= 0
 //@ func NewLength
 //@   params a r
 //@   property C01
